@@ -13,7 +13,7 @@ KIND = {
     'is_6531_local': [('local6531', [])], 'utf8_decode_next': [('local6531', [])],
     'is_ascii_domain': [('host', [])], 'is_ipv4': [('ipv4', [])], 'is_ipv6': [('ipv6', [])],
     'is_ipaddr': [('email822', ['0'])],
-    'is_special_domain_A': [('special', [])], 'is_special_domain_B': [('special', [])],
+    'is_special_domain_A': [('special', [])], 'is_special_domain_B': [('special', [])], 'is_special_domain_Aq': [('special', [])], 'is_special_domain_Bq': [('special', [])],
     'is_tld': [('tld', [])], 'tld_table': [('tld', [])],
     'eav_is_email': [('policy', [])], 'eav_is_email@idn': [('policy', [])], 'eav_is_email@idnkit': [('policy', [])],
 }
@@ -27,14 +27,19 @@ for pth in ('host', 'literal'):
         KIND['email_6531_%s%s' % (pth, sfx)] = [('email6531', ['0']), ('email6531', ['1'])]
 
 
-def build_oracle(work):
-    d = os.path.join(work, 'oracle')
+# option builds (C17): the oracle is compiled with the same -D, which selects the variant of the code and of the specification
+OPTDEFS = {'is_6531_local+rfc20': ['-DRFC6531_FOLLOW_RFC20'], 'is_6531_local+rfc5322': ['-DRFC6531_FOLLOW_RFC5322'], 'is_ascii_domain+underscore': ['-DLABELS_ALLOW_UNDERSCORE']}
+KIND.update({'is_6531_local+rfc20': [('local6531', [])], 'is_6531_local+rfc5322': [('local6531', [])], 'is_ascii_domain+underscore': [('host', [])], 'is_ipv6_anylen': [('ipv6', [])]})
+
+
+def build_oracle(work, defs=()):
+    d = os.path.join(work, 'oracle' + ''.join(x.replace('-D', '_') for x in defs))
     exe = os.path.join(d, 'oracle')
     if os.path.exists(exe):
         return exe
     os.makedirs(d, exist_ok=True)
     srcs = sorted(glob.glob(REPO + '/src/*.c')) + sorted(glob.glob(REPO + '/partial/idn2/*.c'))
-    cmd = ['gcc', '-O1', '-w', '-D_DEFAULT_SOURCE', '-DHAVE_LIBIDN2', '-I' + REPO + '/include', '-I' + REPO,
+    cmd = ['gcc', '-O1', '-w', '-D_DEFAULT_SOURCE', '-DHAVE_LIBIDN2'] + list(defs) + ['-I' + REPO + '/include', '-I' + REPO,
            '-I' + VERIF + '/spec', '-I' + work, os.path.join(VERIF, 'replay', 'oracle.c')] + srcs + ['-lidn2', '-o', exe]
     rc, out, err, _ = sh(cmd, timeout=300)
     if rc != 0:
@@ -70,7 +75,7 @@ def find(job, o, rec, work):
     kinds = KIND.get(job.name)
     if not kinds:
         return None
-    exe = build_oracle(work)
+    exe = build_oracle(work, OPTDEFS.get(job.name, ()))
     rec['native_search'] = []
     for kind, args in kinds:
         rc, out, err, s = sh([exe, 'search', kind, '6', '6000000'] + args, timeout=400)
@@ -85,7 +90,7 @@ def find(job, o, rec, work):
                 txt = bytes.fromhex(hexs).decode('utf-8', 'backslashreplace')
             except Exception:
                 txt = ''
-            return dict(oracle_kind=kind, oracle_args=rargs, input_hex=hexs, input_text=txt,
+            return dict(oracle_kind=kind, oracle_args=rargs, oracle_defs=list(OPTDEFS.get(job.name, ())), input_hex=hexs, input_text=txt,
                         native_cmd='replay/oracle.c built against /repo (guard off): oracle %s %s %s' % (kind, hexs, ' '.join(rargs)),
                         native_result=rp, replay_confirms=rp['disagree'])
     return None
